@@ -327,10 +327,10 @@ def _fill_orbitals(
     """
     # Find the offsets for each angular momentum
     offset = 0
-    offsets = []
+    offsets = {}
     ls = np.concatenate([shell.angmoms for shell in obasis.shells])
     for ell in sorted(set(ls)):
-        offsets.append(offset)
+        offsets[ell] = offset
         offset += (2 * ell + 1) * (ell == ls).sum()
     del offset
 
